@@ -228,7 +228,11 @@ fn run(input: RunInput) -> ScenFuture {
         let worst_k = 64u64;
         // (one full rotation through the longest list: every entry may cost a connect timeout, a
         // backoff and the ticks to notice and to retry)
-        let final_wait = max_list * (backoff_ns(worst_k, step_ms * MS, max_ms * MS) + ct_ms * MS + 2 * period) + (2 + final_high.len() as u64 / cap as u64 + 1) * period + 2_000 * MS;
+        // ... and the cap serialises the peers: with n peers and room for `cap` attempts at a time the
+        // lists are worked through in ceil(n / cap) rounds; which peer gets a free slot at a tick is a
+        // (seeded) lottery among the eligible ones, hence the factor two
+        let rounds = (final_high.len() as u64).div_ceil(cap as u64).max(1);
+        let final_wait = 2 * rounds * max_list * (backoff_ns(worst_k, step_ms * MS, max_ms * MS) + ct_ms * MS + 2 * period) + (2 + final_high.len() as u64 / cap as u64 + 1) * period + 2_000 * MS;
         tokio::time::sleep(Duration::from_nanos(final_wait)).await;
         // a connection that only ends during this phase (a stale one that the healed network
         // finally resets, a target that disconnects late) restarts the clock for that peer:
